@@ -6,8 +6,11 @@ The core mechanism is the wrap machine's treatment of whitespace in normal (non-
 whitespace character never enters the text, it only sets "one space is pending" — and only if something is on
 the line already.  Status: **partial** — proved for the wrap machine: in normal mode every whitespace character
 acts like a plain space, and a whitespace character that directly follows another one is a no-op, so any two
-non-empty whitespace runs have the same effect.  That comments and neutral `span`s do not reach the renderer is
-decided by correspondence and the metamorphic oracle (with the two named exceptions of DESIGN §8 #12). -/
+non-empty whitespace runs have the same effect; and splitting a text node at any point into two `add_text`
+calls with the same tag — which is all a comment or a neutral `span` inside text does to the renderer's input —
+leaves the block in the same state, in every white-space mode (`addText_split`).  That the tree builder hands a
+comment or neutral `span` to the renderer as exactly such a split is decided by correspondence and the metamorphic
+oracle (with the two named exceptions of DESIGN §8 #12). -/
 
 namespace H2T.C13
 
@@ -50,6 +53,126 @@ theorem ws_chars_interchangeable (b : WB) (mt wt : Tag) (cur : Bool) (c1 c2 : Ch
 theorem leading_ws_dropped (b : WB) (mt wt : Tag) (cur : Bool) (c : Ch) (hc : c.ws = true) (hw : b.wordlen = 0)
     (hl : b.linelen = 0) : b.addChar .normal mt wt cur c = .ok (b, cur) := by
   rw [ws_char_normal b mt wt cur c hc hw]; simp [hl]
+
+/-! ## splitting a text node is neutral
+
+A comment, or an element that adds no annotation (a plain `span`), in the middle of a text splits one `add_text`
+call into two with the same tags.  The wrap machine's state after the two calls is the state after the one call —
+in every white-space mode, for every text, at every split point. -/
+
+/-- with equal main and wrap tags the loop-local tag choice cannot influence the block -/
+theorem addChar_cur_irrelevant (b : WB) (m : WS) (t : Tag) (cur cur' : Bool) (c : Ch) :
+    (b.addChar m t t cur c).map Prod.fst = (b.addChar m t t cur' c).map Prod.fst := by
+  unfold WB.addChar
+  simp only [ite_self]
+  cases (if (c.ws && decide (b.wordlen > 0)) = true then b.flushWord m else Except.ok b) with
+  | error e => rfl
+  | ok b1 =>
+    simp only
+    by_cases hws : c.ws = true
+    · simp only [hws, if_true]
+      by_cases hp : m.preserve = true
+      · simp only [hp, if_true]
+        by_cases h10 : c.cp = 10
+        · simp [h10, Except.map]
+        · simp only [h10, if_false]
+          by_cases h9 : c.cp = 9
+          · simp only [h9, if_true]
+            cases b1.tabLoop t (b1.linelen + b1.wslen) false (2 * b1.width + 20) <;> simp [Except.map]
+          · simp only [h9, if_false]
+            split
+            · simp [Except.map]
+            · split
+              · split <;> simp [Except.map]
+              · simp [Except.map]
+      · have hp' : m.preserve = false := by simpa using hp
+        simp only [hp', Bool.false_eq_true, if_false]
+        split <;> simp [Except.map]
+    · have hws' : c.ws = false := by simpa using hws
+      simp only [hws', Bool.false_eq_true, if_false]
+      split
+      · simp [Except.map]
+      · simp [Except.map]
+
+theorem addTextGo_cur_irrelevant (m : WS) (t : Tag) (cs : List Ch) : ∀ (b : WB) (cur cur' : Bool),
+    b.addTextGo m t t cur cs = b.addTextGo m t t cur' cs := by
+  induction cs with
+  | nil => intro b cur cur'; rfl
+  | cons c cs ih =>
+    intro b cur cur'
+    have h := addChar_cur_irrelevant b m t cur cur' c
+    simp only [WB.addTextGo]
+    cases h1 : b.addChar m t t cur c with
+    | error e =>
+      cases h2 : b.addChar m t t cur' c with
+      | error e' => simp [h1, h2, Except.map] at h; simp [h]
+      | ok r => simp [h1, h2, Except.map] at h
+    | ok r =>
+      cases h2 : b.addChar m t t cur' c with
+      | error e' => simp [h1, h2, Except.map] at h
+      | ok r' =>
+        simp [h1, h2, Except.map] at h
+        obtain ⟨b1, c1⟩ := r
+        obtain ⟨b2, c2⟩ := r'
+        simp only at h ⊢
+        subst h
+        exact ih b1 c1 c2
+
+theorem addTextGo_append (m : WS) (t : Tag) (a b2 : List Ch) : ∀ (b : WB) (cur cur2 : Bool),
+    b.addTextGo m t t cur (a ++ b2) = andThen (b.addTextGo m t t cur a) (fun b' => b'.addTextGo m t t cur2 b2) := by
+  induction a with
+  | nil => intro b cur cur2; simp only [List.nil_append, WB.addTextGo, andThen]; exact addTextGo_cur_irrelevant m t b2 b cur cur2
+  | cons c cs ih =>
+    intro b cur cur2
+    simp only [List.cons_append, WB.addTextGo]
+    cases b.addChar m t t cur c with
+    | error e => rfl
+    | ok r => exact ih r.1 r.2 cur2
+
+/-- **Splitting a text node is neutral**: feeding `a ++ b₂` in one `add_text` call, or `a` and then `b₂` in two
+    calls with the same tag, leaves the block in the same state (or fails with the same error). -/
+theorem addText_split (b : WB) (hi : b.Inv) (m : WS) (t : Tag) (a b2 : List Ch) :
+    b.addText m t t (a ++ b2) = andThen (b.addText m t t a) (fun b' => b'.addText m t t b2) := by
+  unfold WB.addText
+  by_cases hw : b.width = 0
+  · by_cases ho : b.overflow = true
+    · -- the guard widens the block to one column, once
+      have hg : ∀ cs, b.zeroGuard cs = .ok { b with width := 1 } := by intro cs; simp [WB.zeroGuard, hw, ho]
+      rw [hg, hg]
+      simp only [andThen]
+      have hi1 : ({ b with width := 1 } : WB).Inv :=
+        ⟨hi.linelen_eq, hi.wordlen_eq, by have := hi.line_fit; show b.linelen ≤ 1; omega,
+         by intro h; simp [ho] at h, hi.tag_ok⟩
+      rw [addTextGo_append m t a b2 _ _ b.preWrapped]
+      cases h1 : ({ b with width := 1 } : WB).addTextGo m t t b.preWrapped a with
+      | error e => rfl
+      | ok b' =>
+        simp only [andThen]
+        obtain ⟨_, hs⟩ := addTextGo_inv m t t a _ b' _ hi1 h1
+        have hw' : ¬ b'.width = 0 := by rw [hs.width]; simp
+        simp only [WB.zeroGuard, hw', if_false]
+        exact addTextGo_cur_irrelevant m t b2 b' _ _
+    · have ho' : b.overflow = false := by simpa using ho
+      cases a with
+      | nil =>
+        simp only [List.nil_append, WB.zeroGuard, hw, ho', if_true, Bool.false_eq_true, if_false, List.isEmpty_nil,
+          Bool.not_true, andThen, WB.addTextGo]
+      | cons c cs => simp [WB.zeroGuard, hw, ho', andThen]
+  · have hg : ∀ cs, b.zeroGuard cs = .ok b := by intro cs; simp [WB.zeroGuard, hw]
+    rw [hg, hg]
+    simp only [andThen]
+    rw [addTextGo_append m t a b2 b _ b.preWrapped]
+    cases h1 : b.addTextGo m t t b.preWrapped a with
+    | error e => rfl
+    | ok b' =>
+      simp only [andThen]
+      obtain ⟨_, hs⟩ := addTextGo_inv m t t a b b' _ hi h1
+      have hw' : ¬ b'.width = 0 := by rw [hs.width]; exact hw
+      simp only [WB.zeroGuard, hw', if_false]
+      exact addTextGo_cur_irrelevant m t b2 b' _ _
+
+/-- the hypothesis of `addText_split` holds for every fresh block (and is preserved by every operation: WrapInv) -/
+example : ({ width := 5, padBlocks := true } : WB).Inv := new_inv 5 true false
 
 /-! non-vacuity: "a  b", "a\n\tb" and "a b" give the same block -/
 example :
